@@ -5,8 +5,14 @@ from harness import graphs as G
 from harness.core import Violation
 
 
-def to_np(rows, dtype=int):
-    return G.matrix_from_rows(rows, dtype=dtype)
+DTYPES = {"int": np.int64, "float": float, "uint8": np.uint8, "bool": bool, "int32": np.int32, "float32": np.float32,
+          int: np.int64, float: float, None: np.int64}
+DTYPE_NAMES = ["int", "float", "uint8", "bool", "int32", "float32"]
+
+
+def to_np(rows, dtype="int"):
+    """0/1 adjacency in any of the dtypes a caller may reasonably use for a 0/1 matrix."""
+    return G.matrix_from_rows(rows, dtype=DTYPES.get(dtype, dtype))
 
 
 def case_graph(case, key="A"):
@@ -25,7 +31,18 @@ def result_set(arr, p, what):
     if arr.ndim != 3 or arr.shape[1:] != (p, p):
         raise Violation("bad_shape", "%s returned array of shape %r" % (what, arr.shape))
     rows = [G.rows_from_matrix(M) for M in arr]
+    spoil(arr)
     return set(rows), len(rows)
+
+
+def spoil(arr):
+    """Overwrite an array the library returned (after it was judged): if the library handed out
+    a view of its own storage or a cached object, the next call shows it."""
+    if isinstance(arr, np.ndarray) and arr.size and arr.flags.writeable:
+        try:
+            arr[...] = 7
+        except (ValueError, TypeError):
+            pass
 
 
 def compare_sets(got, n_got, want, what, ctx):
@@ -59,7 +76,7 @@ def signed_copy(rows, salt):
     non-zero pattern - used to present DAGs 'as weight matrices'."""
     p = len(rows)
     W = np.zeros((p, p))
-    vals = [-2.5, 1.0, -1.0, 0.5, 3.0, -0.25, 2.0, -1.0]
+    vals = [-2.5, 1.0, -1.0, 0.5, 3.0, -0.25, 2.0, -1.0, 1e-13, -3e-14, 5e-324, -2.0 ** -200, 1.5, -4.0][: 8 + 6 * (salt % 2)]
     k = salt
     for i in range(p):
         for j in range(p):
@@ -74,3 +91,30 @@ def signed_copy(rows, salt):
             if s != 0:
                 W[pas[-1], j] = -s
     return W
+
+
+def has_cycle_big(M):
+    """Iterative 3-colour DFS over adjacency lists for graphs too large for the bitset oracle."""
+    M = np.asarray(M)
+    p = len(M)
+    adj = [np.nonzero(M[i])[0].tolist() for i in range(p)]
+    colour = [0] * p
+    for s0 in range(p):
+        if colour[s0]:
+            continue
+        stack = [(s0, 0)]
+        colour[s0] = 1
+        while stack:
+            v, k = stack[-1]
+            if k < len(adj[v]):
+                stack[-1] = (v, k + 1)
+                w = adj[v][k]
+                if colour[w] == 1:
+                    return True
+                if colour[w] == 0:
+                    colour[w] = 1
+                    stack.append((w, 0))
+            else:
+                colour[v] = 2
+                stack.pop()
+    return False
